@@ -67,11 +67,14 @@ theorem pattern_metadata_facts :
       "std::string_view{_source_location+_file_name_pos,static_cast<size_t>(_colon_separator_pos-_file_name_pos)}".toList ∧
     Extracted.metaShort.toList = "_source_location+_file_name_pos".toList := by decide
 
-/-- backend: multi-line guard, strip rule, split loop, runtime-metadata split -/
+/-- backend: multi-line guard, strip rule, split loop, runtime-metadata split; a sink's override pattern is selected per
+    sink on the write path by the sink's options (its formatter created there on first use), not where the logger's
+    formatter is set up or shared — the model's `patternFor` rule (`C12_sink_pattern_rule`) -/
 theorem pattern_backend_facts :
     Extracted.multiLineGuard = true ∧ Extracted.stripsOneTrailingNewline = true ∧ Extracted.splitLoop = true ∧
     Extracted.runtimeSplitsOnSeparator = true ∧ Extracted.runtimeMetadataArgs = true ∧ Extracted.runtimeMacroOrder = true ∧
-    Extracted.runtimeFileLineJoin.toList = [':'] ∧ Extracted.defaultAddMetadata = true := by decide
+    Extracted.runtimeFileLineJoin.toList = [':'] ∧ Extracted.defaultAddMetadata = true ∧
+    Extracted.overrideChosenOnWritePath = true := by decide
 
 /-- the separator the runtime-metadata theorem is proved for -/
 theorem pattern_magic_separator : Extracted.magicSeparator.map Char.ofNat = magicSep := by decide
